@@ -12,7 +12,6 @@ import (
 	"errors"
 	"fmt"
 	"sort"
-	"unicode/utf8"
 )
 
 // Item is one decoded data item.
@@ -120,7 +119,7 @@ func decode(b []byte, off int, o Opts, depth int) (*Item, error) {
 		}
 		it.Str = b[pos : pos+int(arg)]
 		it.End = pos + int(arg)
-		if major == 3 && o.UTF8 && !utf8.Valid(it.Str) {
+		if major == 3 && o.UTF8 && !ValidUTF8(it.Str) {
 			return nil, errors.New("rcbor: invalid UTF-8 in text string")
 		}
 	case 4, 5:
@@ -294,4 +293,56 @@ func Cat(parts ...[]byte) []byte {
 		out = append(out, p...)
 	}
 	return out
+}
+
+// ValidUTF8 follows the UTF8-octets grammar of RFC 3629 section 4 (written out here so that the reference does not
+// share crypto/unicode code with the implementation under test).
+func ValidUTF8(b []byte) bool {
+	in := func(c, lo, hi byte) bool { return c >= lo && c <= hi }
+	for i := 0; i < len(b); {
+		c := b[i]
+		need := func(n int) bool { return i+n < len(b) }
+		switch {
+		case c <= 0x7f:
+			i++
+		case in(c, 0xc2, 0xdf):
+			if !need(1) || !in(b[i+1], 0x80, 0xbf) {
+				return false
+			}
+			i += 2
+		case c == 0xe0:
+			if !need(2) || !in(b[i+1], 0xa0, 0xbf) || !in(b[i+2], 0x80, 0xbf) {
+				return false
+			}
+			i += 3
+		case in(c, 0xe1, 0xec) || in(c, 0xee, 0xef):
+			if !need(2) || !in(b[i+1], 0x80, 0xbf) || !in(b[i+2], 0x80, 0xbf) {
+				return false
+			}
+			i += 3
+		case c == 0xed:
+			if !need(2) || !in(b[i+1], 0x80, 0x9f) || !in(b[i+2], 0x80, 0xbf) {
+				return false
+			}
+			i += 3
+		case c == 0xf0:
+			if !need(3) || !in(b[i+1], 0x90, 0xbf) || !in(b[i+2], 0x80, 0xbf) || !in(b[i+3], 0x80, 0xbf) {
+				return false
+			}
+			i += 4
+		case in(c, 0xf1, 0xf3):
+			if !need(3) || !in(b[i+1], 0x80, 0xbf) || !in(b[i+2], 0x80, 0xbf) || !in(b[i+3], 0x80, 0xbf) {
+				return false
+			}
+			i += 4
+		case c == 0xf4:
+			if !need(3) || !in(b[i+1], 0x80, 0x8f) || !in(b[i+2], 0x80, 0xbf) || !in(b[i+3], 0x80, 0xbf) {
+				return false
+			}
+			i += 4
+		default:
+			return false
+		}
+	}
+	return true
 }
